@@ -2372,6 +2372,10 @@ _lyd_validate_op(struct lyd_node *op_tree, struct lyd_node *op_node, const struc
 
     if (int_opts & LYD_INTOPT_REPLY) {
         if (validate_subtree) {
+            /* new node validation of the output children */
+            rc = lyd_validate_new(lyd_node_child_p(op_node), op_node->schema, NULL, NULL, 0, int_opts, getnext_ht, diff);
+            LY_CHECK_GOTO(rc, cleanup);
+
             /* add output children defaults */
             rc = lyd_new_implicit(op_node, lyd_node_child_p(op_node), NULL, NULL, node_when_p, node_types_p,
                     ext_node_p, LYD_IMPLICIT_OUTPUT, getnext_ht, diff);
